@@ -223,7 +223,7 @@ theorem send_rb_op (r : RunSt) (payload : Bytes) (hg : C03.Good r.st) (hz : Z r.
         have : forbidden (C03.cut r.st).blacklist payload = forbidden r.st.blacklist payload := rfl
         rw [this, hnf] at h; simp at h
       · rename_i hne _
-        obtain ⟨hzz, hok, hhang, hnt, hnfuel⟩ := sendLoop_rb (payload.length + 1) payload false (C03.cut r.st).now (C03.cut r.st)
+        obtain ⟨hzz, hok, hhang, hnt, hnfuel, _⟩ := sendLoop_rb (payload.length + 1) payload false (C03.cut r.st).now (C03.cut r.st)
           (by omega) hz hg.cut.wf hg.cut.chunk hg.cut.slice hg.cut.slow
         obtain ⟨recs, ws, _, _, _, _, _, herr⟩ := C03.sendLoop_spec (payload.length + 1) payload true none false
           (C03.cut r.st).now (C03.cut r.st) (by omega) hg.cut.slice hg.cut.wf hg.cut.chunk hg.cut.slow
@@ -268,6 +268,33 @@ theorem send_rb_op (r : RunSt) (payload : Bytes) (hg : C03.Good r.st) (hz : Z r.
     have h1 := hcons.1
     omega
   · rw [hsnd]; exact hmain.2.2
+
+/-- `send(read_back=True)` never takes more than the echo it counts on -/
+theorem send_rb_le (r : RunSt) (payload : Bytes) (hg : C03.Good r.st) (hz : Z r.st) :
+    (sizesOf (obsOp (.send payload true none false) r).1).sum ≤ Tty.readBackLen payload := by
+  have hcons := consumed r (.send payload true none false) hg rfl
+  have hsnd : (obsOp (.send payload true none false) r).2.st = (send payload true none false (C03.cut r.st)).2 := by
+    rw [obsOp_snd]
+    simp only [runOp, C05.cutR]
+    cases send payload true none false (C03.cut r.st) with
+    | mk res s' => cases res <;> rfl
+  have hpc : pending (C03.cut r.st) = pending r.st := rfl
+  have hle : (pending r.st).length ≤ (pending (send payload true none false (C03.cut r.st)).2).length + Tty.readBackLen payload := by
+    unfold send
+    split
+    · simp [hpc]
+    · split
+      · simp [hpc]
+      · have := (sendLoop_rb (payload.length + 1) payload false (C03.cut r.st).now (C03.cut r.st)
+          (by omega) hz hg.cut.wf hg.cut.chunk hg.cut.slice hg.cut.slow).2.2.2.2.2
+        rw [hpc] at this
+        exact this
+  have h3 := hcons.2.2
+  rw [hsnd] at h3
+  have h4 := congrArg List.length h3
+  simp only [List.length_drop] at h4
+  have h1 := hcons.1
+  omega
 
 theorem sendline_eq_send (b : Bytes) (rb : Bool) (t : Option Nat) (r : RunSt) :
     obsOp (.sendline b rb t) r = obsOp (.send (b ++ [13]) rb t false) r := rfl
@@ -364,7 +391,10 @@ theorem fetchRc_exact (c : Case) (sizes : List Nat) (st : Nat) (hst : st < 256) 
     (hbl : r.st.blacklist = blacklist c) (hpend : pending r.st = []) :
     (fetchRc sizes (Shell.respStatus false (prompt c) st) r).1 = .ok st
     ∧ (fetchRc sizes (Shell.respStatus false (prompt c) st) r).2.1.sum = (Shell.respStatus false (prompt c) st).length
-    ∧ (fetchRc sizes (Shell.respStatus false (prompt c) st) r).2.2.st.script = [] := by
+    ∧ (fetchRc sizes (Shell.respStatus false (prompt c) st) r).2.2.st.script = []
+    ∧ C03.Good (fetchRc sizes (Shell.respStatus false (prompt c) st) r).2.2.st
+    ∧ (fetchRc sizes (Shell.respStatus false (prompt c) st) r).2.2.st.prompt = some (.lit (prompt c))
+    ∧ (fetchRc sizes (Shell.respStatus false (prompt c) st) r).2.2.st.blacklist = blacklist c := by
   generalize hr1 : load sizes (Shell.respStatus false (prompt c) st) r = r1
   have hg1 : C03.Good r1.st := by rw [← hr1]; exact load_good _ _ _ hg
   have hz1 : Z r1.st := by rw [← hr1]; exact load_z _ _ _
@@ -394,16 +424,26 @@ theorem fetchRc_exact (c : Case) (sizes : List Nat) (st : Nat) (hst : st < 256) 
   have hps : (if c.ash then Params.ashPrompt else Params.bashPrompt) = prompt c := rfl
   rw [hps] at htab
   have hne := noEarly_of _ _ _ htab.1
+  have hbl2 : r2.st.blacklist = blacklist c := by
+    have := congrArg Cfg.blacklist hk2.cfg
+    simpa [Cfg.ofRun, Cfg.step, hbl1] using this
   have hrup := rup_exact r2 (prompt c) _ hk2.good hstep2.1 hpr2 (prompt_ne c) hp2 hne
+  have hk3 := ChanCase.keeps r2 (.rup none none) hk2.good rfl
   unfold fetchRc
   rw [hr1, sendline_eq_send, ho2]
   simp only [hsend.1]
-  generalize ho3 : obsOp (.rup none none) r2 = out3 at hrup
+  generalize ho3 : obsOp (.rup none none) r2 = out3 at hrup hk3
   obtain ⟨o3, r3⟩ := out3
-  simp only at hrup ⊢
+  simp only at hrup hk3 ⊢
   rw [hrup.1]
   simp only [List.length_append, Nat.add_sub_cancel, List.take_left', htab.2]
-  refine ⟨trivial, ?_, hrup.2.2⟩
+  have hpr3 : r3.st.prompt = some (.lit (prompt c)) := by
+    have := congrArg Cfg.prompt hk3.cfg
+    simpa [Cfg.ofRun, Cfg.step, hpr2] using this
+  have hbl3 : r3.st.blacklist = blacklist c := by
+    have := congrArg Cfg.blacklist hk3.cfg
+    simpa [Cfg.ofRun, Cfg.step, hbl2] using this
+  refine ⟨trivial, ?_, hrup.2.2, hk3.good, hpr3, hbl3⟩
   rw [List.sum_append, hsend.2.1, hrup.2.1, respStatus_eq]
   simp only [List.length_append]
   rw [hecho]
